@@ -78,7 +78,29 @@ class Gen:
         coq = "ELit _ _ (LInt %d)" % z if z >= 0 else "EUn _ _ Neg (ELit _ _ (LInt %d))" % (-z)
         return ts, coq
 
+    CHAIN_NUM = [("+", "TPlus"), ("-", "TMinus"), ("*", "TStar"), ("/", "TSlash"), ("&", "TAmp"), ("|", "TPipe"), ("^", "TCaret"),
+                 ("<<", "TLtLt"), (">>", "TGtGt"), (">>>", "TGtGtGt")]
+    CHAIN_ALL = CHAIN_NUM + [("<", "TLt"), ("<=", "TLtEq"), (">", "TGt"), (">=", "TGtEq"), ("==", "TEqEq"), ("!=", "TBangEq"),
+                             ("===", "TEqEqEq"), ("!==", "TBangEqEq"), ("&&", "TAmpAmp"), ("||", "TPipePipe")]
+
+    def chain(self, d, ops):
+        """operands and operators without parentheses: the source leaves the grouping to the parser, the model to Lang/Pratt.v"""
+        n = 2 + self.rng.below(5)
+        # `x < y > (z)` is a call with a type argument in TypeScript: a chain keeps to one side of the angle brackets
+        side = self.rng.below(2)
+        ops = [o for o in ops if not (o[0].startswith("<") if side else o[0].startswith(">"))]
+        a = self.num(d - 1) if self.rng.below(3) else self.lit_num()
+        ts, rest = a[0], []
+        for _ in range(n):
+            o, tok = self.pick(ops)
+            b = self.num(d - 1) if self.rng.below(3) else self.lit_num()
+            ts += " %s %s" % (o, b[0])
+            rest.append("(%s, %s)" % (tok, b[1]))
+        return "(%s)" % ts, "chain (%s) [%s]" % (a[1], "; ".join(rest))
+
     def num(self, d):
+        if d > 0 and self.rng.below(6) == 0:
+            return self.chain(d, self.CHAIN_NUM)
         r = self.rng.below(12)
         vs = self.visible("n")
         if d <= 0 or r < 2:
@@ -162,6 +184,8 @@ class Gen:
         return "(%s ? %s : %s)" % (c[0], a[0], b[0]), "ECond _ _ (%s) (%s) (%s)" % (c[1], a[1], b[1])
 
     def anyv(self, d):
+        if d > 0 and self.rng.below(8) == 0:
+            return self.chain(d, self.CHAIN_ALL)
         r = self.rng.below(12)
         if r < 4:
             return self.num(d)
@@ -298,6 +322,8 @@ CORPUS = [
      '(ETypeofVar _ _ "zz9")'),
     ("let a = 1;\n(a = zz9);\n", 'core_case 4000 [SDecl _ _ true "a" (ELit _ _ (LInt 1))] (EAssign _ _ "a" (EVar _ _ "zz9"))'),
     ("1000;\n", "core_case 4000 [] (ELit _ _ (LInt 1000))"),
+    ("(1 + 2 * 3 - 4 / 2 < 7 & 3 | 8 ^ 1 << 2 >> 1 === 1 && 5 || 9);\n",
+     "core_case 4000 [] (chain (ELit _ _ (LInt 1)) [(TPlus, ELit _ _ (LInt 2)); (TStar, ELit _ _ (LInt 3)); (TMinus, ELit _ _ (LInt 4)); (TSlash, ELit _ _ (LInt 2)); (TLt, ELit _ _ (LInt 7)); (TAmp, ELit _ _ (LInt 3)); (TPipe, ELit _ _ (LInt 8)); (TCaret, ELit _ _ (LInt 1)); (TLtLt, ELit _ _ (LInt 2)); (TGtGt, ELit _ _ (LInt 1)); (TEqEqEq, ELit _ _ (LInt 1)); (TAmpAmp, ELit _ _ (LInt 5)); (TPipePipe, ELit _ _ (LInt 9))])"),
     ("let x = 1;\n{\n  let i = 0;\n  while (i < 9) {\n    i = i + 1;\n    if ((i === 3)) { let x = 50; continue; }\n    x = x + i;\n    { if ((x > 20)) break; }\n  }\n}\nx;\n",
      'core_case 4000 [SDecl _ _ true "x" (ELit _ _ (LInt 1)); SBlock _ _ [SDecl _ _ true "i" (ELit _ _ (LInt 0)); '
      'SWhile _ _ (EBin _ _ Lt (EVar _ _ "i") (ELit _ _ (LInt 9))) (SBlock _ _ [SExpr _ _ (EAssign _ _ "i" (EBin _ _ Add (EVar _ _ "i") (ELit _ _ (LInt 1)))); '
@@ -434,7 +460,7 @@ def run(chk, th, stats):
     jobs = []
     for k in range(0, len(cases), shard):
         rows = ";\n ".join("(%s)" % c for _, c in cases[k:k + shard])
-        body = ("From Coq Require Import String ZArith List.\nFrom TsrunV Require Import Lang.Ops Lang.Core Lang.CoreExec Base.Render.\n"
+        body = ("From Coq Require Import String ZArith List.\nFrom TsrunV Require Import Lang.Ops Lang.Core Lang.PrattInst Lang.CoreExec Base.Render.\n"
                 "Import ListNotations.\nLocal Open Scope string_scope.\nLocal Open Scope Z_scope.\n"
                 "Eval vm_compute in (lines [%s])." % rows)
         jobs.append(("c01core_%d" % (k // shard), body))
